@@ -279,7 +279,7 @@ def manifest():
             'replay_cmd_template': './vf replay {path}',
             'engine': 'cbmc-dfcc',
             'level_claimed': {'category': m['level'], 'text': text, 'design_ref': m['design']},
-            'level_note': '; '.join(m['assumptions'] + m['trusted'])[:3000],
+            'level_note': '; '.join(m['assumptions'] + m['trusted']),
             'technique': tech,
         })
     na = []
